@@ -37,10 +37,14 @@ type c13case struct {
 
 func (k c13case) key() string { b, _ := json.Marshal(k); return string(b) }
 
-var c13Names = []string{"FOO", "BAR", "HOME_DIR", "version", "out_dir", "X", "PATHX", "LANGX", "my_var", "TARGET"}
+var c13Names = []string{"FOO", "BAR", "HOME_DIR", "version", "out_dir", "X", "PATHX", "LANGX", "my_var", "TARGET",
+	// names a tool might want for values of its own
+	"OS", "ARCH", "TASK", "NAME", "ROOT", "CWD", "SPOK", "GOOS", "DIR", "ARGS", "SPOKFILE"}
 
 // value alphabet: printable ASCII without both quote characters
-var c13Chars = []string{"a", "Z", "0", " ", "  ", "$", "{", "}", "\\", "%", "-", "/", ".", "*", "<", ">", "&", "|", ";", "(", ")", "=", "~", "!", "?", "[", "]", "^", "@", ",", ":", "+", "_", "%s", "$HOME", "${X}", "{{", "}}", "\\n", "`"}
+var c13Chars = []string{"a", "Z", "0", " ", "  ", "$", "{", "}", "\\", "%", "-", "/", ".", "*", "<", ">", "&", "|", ";", "(", ")", "=", "~", "!", "?", "[", "]", "^", "@", ",", ":", "+", "_", "%s", "$HOME", "${X}", "{{", "}}", "\\n", "`",
+	// text that looks like a reference to another variable: a value is never expanded again
+	"{{.FOO}}", "{{.X}}", "{{.NAME}}", "{{ .BAR }}", "$FOO", "${BAR}"}
 
 func c13Value(r *core.Rng) string {
 	n := r.Range(0, 6)
@@ -162,7 +166,8 @@ func (k c13case) text() string {
 	b.WriteString("\ntask show() {\n")
 	for i, v := range k.Vars {
 		fmt.Fprintf(&b, "    printf '%%s\\n' '%s{{.%s}}%s'\n", k.Lits[i][0], v.Name, k.Lits[i][1])
-		fmt.Fprintf(&b, "    printf '%%s\\n' \"$%s\"\n", v.Name)
+		// the shell's own expansion, and what a program started by the command finds in its environment
+		fmt.Fprintf(&b, "    printf '%%s\\n' \"$%s\" && printenv %s\n", v.Name, v.Name)
 	}
 	b.WriteString("    printf '%s\\n' done\n")
 	b.WriteString("}\n")
@@ -188,7 +193,7 @@ func (k c13case) text() string {
 		b.WriteString("\ntask showb() {\n")
 		for i, v := range k.Vars {
 			fmt.Fprintf(&b, "    printf '%%s\\n' '%s{{.%s}}%s'\n", k.Lits[i][0], v.Name, k.Lits[i][1])
-			fmt.Fprintf(&b, "    printf '%%s\\n' \"$%s\"\n", v.Name)
+			fmt.Fprintf(&b, "    printf '%%s\\n' \"$%s\" && printenv %s\n", v.Name, v.Name)
 		}
 		b.WriteString("    printf '%s\\n' done\n")
 		b.WriteString("}\n")
@@ -310,7 +315,7 @@ func c13Judge(c *core.Ctx, k c13case, res *core.ShardResult) (vs []core.Violatio
 				bad("template-substitution", "variable %s was redefined as %q before task showb, whose command is %q, want %q", v.Name, nv, later[2*i].Cmd, wantCmd)
 				return
 			}
-			if later[2*i+1].Stdout != nv+"\n" {
+			if later[2*i+1].Stdout != nv+"\n"+nv+"\n" {
 				bad("environment-has-spokfile-value", "variable %s was redefined as %q before task showb, $%s there is %q", v.Name, nv, v.Name, strings.TrimSuffix(later[2*i+1].Stdout, "\n"))
 				return
 			}
@@ -335,8 +340,8 @@ func c13Judge(c *core.Ctx, k c13case, res *core.ShardResult) (vs []core.Violatio
 			bad("text-reaches-shell-unchanged", "variable %s: the shell printed %q for %q", v.Name, tpl.Stdout, k.Lits[i][0]+want+k.Lits[i][1])
 			return
 		}
-		if _, redefined := k.Redef[v.Name]; !redefined && envc.Stdout != want+"\n" {
-			bad("environment-has-spokfile-value", "variable %s (%s) = %q but $%s in the command's environment is %q (ambient %q, .env %q)", v.Name, v.Kind, want, v.Name, strings.TrimSuffix(envc.Stdout, "\n"), k.Ambient[v.Name], k.DotEnv[v.Name])
+		if _, redefined := k.Redef[v.Name]; !redefined && envc.Stdout != want+"\n"+want+"\n" {
+			bad("environment-has-spokfile-value", "variable %s (%s) = %q but the command's output of \"$%s\" and of `printenv` is %q (ambient %q, .env %q)", v.Name, v.Kind, want, v.Name, envc.Stdout, k.Ambient[v.Name], k.DotEnv[v.Name])
 			return
 		}
 		res.Count("variables_checked", 1)
@@ -428,7 +433,7 @@ func c13Run(c *core.Ctx) bool {
 	cov := map[string]any{
 		"evaluations":         total.Evaluations,
 		"distinct_nontrivial": distinct,
-		"rule":                "random variable sets (0-6 variables: strings over printable ASCII without quote characters incl. blanks $ { } \\ % leading '-', join of 0-4 parts incl. '', '.', '..', absolute, exec of printf commands with surrounding blanks/newlines, sometimes one failing exec; names that are also set, with other values, in the ambient environment and/or the .env file) and a task whose commands print '<lit>{{.NAME}}<lit>' (inside single quotes) and \"$NAME\" for every variable; race-built binary with --json and --vars, from the project root or a nested directory; compared with direct textual substitution. evaluations = spok invocations; non-trivial = distinct programs with >=1 variable that passed every comparison (or whose failing exec made every action fail)",
+		"rule":                "random variable sets (0-6 variables: strings over printable ASCII without quote characters incl. blanks $ { } \\ % leading '-', join of 0-4 parts incl. '', '.', '..', absolute, exec of printf commands with surrounding blanks/newlines, sometimes one failing exec; names that are also set, with other values, in the ambient environment and/or the .env file) and a task whose commands print '<lit>{{.NAME}}<lit>' (inside single quotes) and \"$NAME\" and run `printenv NAME` (a child program's view of the environment) for every variable; values may hold text that looks like a reference ({{.FOO}}, $FOO); race-built binary with --json and --vars, from the project root or a nested directory; compared with direct textual substitution. evaluations = spok invocations; non-trivial = distinct programs with >=1 variable that passed every comparison (or whose failing exec made every action fail)",
 		"samples":             total.Samples,
 		"counters":            total.Counters,
 		"variable_kinds_seen": total.SetValues("kinds"),
